@@ -3,19 +3,75 @@
 // Contracts for the deductive verifier in /verif (govc); comments only.
 package replayfilter
 
-// ghost log of the filter as seen by callers
+// caller-visible ghost log (used by the obfs4 handshake contracts, C04)
 //@ ghostfield replayfilter.ReplayFilter ntests Int
 //@ ghostfield replayfilter.ReplayFilter lasttested BSeq
 //@ ghostfield replayfilter.ReplayFilter lastseen Bool
 
-//@ func (*ReplayFilter).TestAndSet(f, now, buf) (seen)
-//@   serves C11 C04
-//@   nobody caller-visible ghost log only; the set semantics of the filter are the subject of C11
-//@   requires f != nil
-//@   modifies f.*
-//@   ensures f.ntests == old(f.ntests) + 1 && f.lasttested == seq(buf) && f.lastseen == seen
+// Representation invariant.  The list is a FIFO window [lhead, ltail) of positions (specs/list.spec).
+//   every list element carries an *entry that points back to it and is filed in the map under its digest;
+//   every map entry is non-nil, filed under its own digest, and sits in the window;
+//   map size == list length <= 102400.
+//@ pred entAt(f, p) := gref(f.fifo, p, "*list.Element") != nil && allocated(gref(f.fifo, p, "*list.Element")) && allocated(gref(f.fifo, p, "*list.Element").Value) && gref(f.fifo, p, "*list.Element").pos == p && gref(f.fifo, p, "*list.Element").owner == f.fifo
+//@     && typeis(gref(f.fifo, p, "*list.Element").Value, "*replayfilter.entry") && payload(gref(f.fifo, p, "*list.Element").Value) != nil
+//@     && gref(f.fifo, p, "*list.Element").Value.(*entry).element == gref(f.fifo, p, "*list.Element")
+//@     && maphas(f.filter, gref(f.fifo, p, "*list.Element").Value.(*entry).digest) && f.filter[gref(f.fifo, p, "*list.Element").Value.(*entry).digest] == gref(f.fifo, p, "*list.Element").Value.(*entry)
+//@ pred keyOK(f, k) := f.filter[k] != nil && allocated(f.filter[k]) && f.filter[k].digest == k && f.filter[k].element != nil && f.fifo.lhead <= f.filter[k].element.pos && f.filter[k].element.pos < f.fifo.ltail
+//@     && gref(f.fifo, f.filter[k].element.pos) == f.filter[k].element && typeis(f.filter[k].element.Value, "*replayfilter.entry") && payload(f.filter[k].element.Value) == f.filter[k]
+//@ pred wf(f) := f != nil && f.filter != nil && f.fifo != nil && whole(f.fifo) && 0 <= f.fifo.lhead && f.fifo.lhead <= f.fifo.ltail && len(f.filter) == f.fifo.ltail - f.fifo.lhead && len(f.filter) <= 102400
+//@     && forall(p, f.fifo.lhead, f.fifo.ltail, withpat(entAt(f, p), gref(f.fifo, p)))
+//@     && forall(k, withpat(maphas(f.filter, k) ==> keyOK(f, k), maphas(f.filter, k)))
 
 //@ func New(ttl) (filter, err)
 //@   serves C11 C04
-//@   nobody the internals (container/list, map) are the subject of C11; callers only need a fresh filter
 //@   ensures (err == nil) == (filter != nil) && (err == nil ==> fresh(filter) && filter.ntests == 0)
+//@   ensures [C11:starts_empty] err == nil ==> wf(filter) && len(filter.filter) == 0 && filter.ttl == ttl
+
+//@ func (*ReplayFilter).reset(f) ()
+//@   serves C11
+//@   requires f != nil
+//@   modifies f.filter, f.fifo
+//@   ensures [C11:reset_discards_everything] wf(f) && len(f.filter) == 0 && fresh(f.filter) && fresh(f.fifo)
+
+// firstSeen of the entry at position p
+//@ pred seenAt(f, p) := gref(f.fifo, p, "*list.Element").Value.(*entry).firstSeen
+
+// Compaction removes entries from the FRONT only (oldest first), until the front entry is fresh
+// (now - firstSeen < ttl); when the filter is full one entry is evicted regardless; a clock that is
+// behind the oldest entry discards everything.
+//@ func (*ReplayFilter).compactFilter(f, now) ()
+//@   serves C11
+//@   requires wf(f)
+//@   modifies f.filter, f.fifo, alloftype(f.filter), alloftype("*list.List"), alloftype("*list.Element"), alloftype("*replayfilter.entry")
+//@   ghost H0 := f.fifo.lhead
+//@   ghost T0 := f.fifo.ltail
+//@   ghost FIFO0 := f.fifo
+//@   loop 1 invariant wf(f) && f.fifo == FIFO0 && f.fifo.ltail == T0 && H0 <= f.fifo.lhead && unchanged(f.ttl) && unchanged(f.filter)
+//@   loop 1 invariant (e == nil ==> f.fifo.lhead == f.fifo.ltail) && (e != nil ==> f.fifo.lhead < f.fifo.ltail && e == gref(f.fifo, f.fifo.lhead))
+//@   loop 1 invariant [C11:room_after_first_eviction] f.fifo.lhead > H0 ==> len(f.filter) <= 102399
+//@   loop 1 decreases f.fifo.ltail - f.fifo.lhead
+//@   ensures wf(f) && unchanged(f.ttl)
+//@   ensures [C11:oldest_first] f.fifo == FIFO0 ==> f.fifo.ltail == T0 && H0 <= f.fifo.lhead
+//@   ensures [C11:backwards_clock_discards_everything] f.fifo != FIFO0 ==> len(f.filter) == 0 && fresh(f.fifo)
+//@   ensures [C11:front_is_fresh] f.fifo == FIFO0 && f.fifo.lhead < f.fifo.ltail ==> f.ttl > 0 && len(f.filter) < 102400 && 0 <= now - seenAt(f, f.fifo.lhead) && now - seenAt(f, f.fifo.lhead) < f.ttl
+//@   ensures [C11:room_for_one] len(f.filter) <= 102399
+
+// The filter is a concurrent object: its state is protected by the embedded mutex.  Whoever acquires the
+// mutex finds wf(f) and arbitrary contents (other callers may have run in between); every release must
+// re-establish wf(f).  A test-and-set that is split over two critical sections therefore cannot rely on
+// its first lookup any more - which is what makes concurrent submissions of one value see exactly one "new".
+//@ lockinv replayfilter.ReplayFilter protects self.filter, self.fifo, alloftype(self.filter), alloftype("*list.List"), alloftype("*list.Element"), alloftype("*replayfilter.entry") := wf(self)
+
+//@ func (*ReplayFilter).TestAndSet(f, now, buf) (seen)
+//@   serves C11 C04
+//@   requires f != nil
+//@   modifies f.ntests, f.lasttested, f.lastseen, f.filter, f.fifo, private(alloftype(f.filter)), private(alloftype("*list.List")), private(alloftype("*list.Element")), private(alloftype("*replayfilter.entry"))
+//@   assert_at List).PushBack#1 [C11:miss_means_absent] !maphas(f.filter, digest) && len(f.filter) <= 102399
+//@   ghostset f.ntests := old(f.ntests) + 1
+//@   ghostset f.lasttested := seq(buf)
+//@   ghostset f.lastseen := seen
+//@   ensures f.ntests == old(f.ntests) + 1 && f.lasttested == seq(buf) && f.lastseen == seen
+//@   ensures [C11:state_stays_well_formed] wf(f) && unchanged(f.ttl)
+//@   ensures [C11:value_is_remembered] maphas(f.filter, SIP64(f.key[0], f.key[1], seq(buf)))
+//@   ensures [C11:new_value_appended_with_its_time] !seen ==> f.fifo.lhead < f.fifo.ltail && gref(f.fifo, f.fifo.ltail - 1, "*list.Element").Value.(*entry).digest == SIP64(f.key[0], f.key[1], seq(buf)) && gref(f.fifo, f.fifo.ltail - 1, "*list.Element").Value.(*entry).firstSeen == now
+//@   ensures [C11:capacity] len(f.filter) <= 102400
